@@ -14,6 +14,10 @@ pub mod c13;
 pub mod c14;
 pub mod c15;
 pub mod c16;
+#[cfg(feature = "builtin")]
+pub mod c17;
+#[cfg(not(feature = "builtin"))]
+#[path = "c17_stub.rs"]
 pub mod c17;
 
 pub mod hist;
